@@ -100,6 +100,10 @@ def case_of(starts, line_idx):
     return bisect.bisect_right(starts, line_idx) - 1
 
 
+import threading
+REF_LOCK = threading.RLock()
+
+
 def run_both(plugin, exe, cases, timeout):
     """returns list of Failure (unshrunk), number of cases fully validated"""
     fails = []
@@ -117,38 +121,44 @@ def run_both(plugin, exe, cases, timeout):
         bad_cases = set()
         i = 0
         ref = getattr(plugin, "reference", None)
-        while i < n:
-            exp = None
-            if ref is not None and impl[i] == model[i] and not lines[i].startswith("case"):
-                try:
-                    exp = ref(lines[i])
-                except Exception:
-                    exp = None
-                if exp is not None:
-                    REF_COUNT[0] += 1
-            if exp is not None and impl[i] != exp:
-                # model and implementation agree but an independent reference says both are wrong
-                k = case_of(starts, i)
-                if k not in bad_cases:
-                    bad_cases.add(k)
-                    e = starts[k + 1] if k + 1 < len(starts) else len(lines)
-                    f = Failure("diverge", sub[k], impl[starts[k]:min(e, len(impl))], ["(reference) line %d: %s" % (i - starts[k], exp)],
-                                clause="independent reference (%s) disagrees with the implementation" % getattr(plugin, "REFERENCE_NAME", "python oracle"))
-                    fails.append(f)
-                    budget -= 1
-                i = starts[k + 1] if k + 1 < len(starts) else n
-                continue
-            if impl[i] != model[i]:
-                k = case_of(starts, i)
-                if k not in bad_cases:
-                    bad_cases.add(k)
-                    e = starts[k + 1] if k + 1 < len(starts) else len(lines)
-                    fails.append(Failure("diverge", sub[k], impl[starts[k]:min(e, len(impl))], model[starts[k]:e]))
-                    budget -= 1
-                # skip to next case
-                i = starts[k + 1] if k + 1 < len(starts) else n
-                continue
-            i += 1
+        # batches are judged by parallel threads and a plugin's reference() may keep per-case state (the current
+        # string, the stream's byte order ...): one batch at a time walks its lines, in order, under this lock
+        REF_LOCK.acquire()
+        try:
+          while i < n:
+              exp = None
+              if ref is not None and impl[i] == model[i] and not lines[i].startswith("case"):
+                  try:
+                      exp = ref(lines[i])
+                  except Exception:
+                      exp = None
+                  if exp is not None:
+                      REF_COUNT[0] += 1
+              if exp is not None and impl[i] != exp:
+                  # model and implementation agree but an independent reference says both are wrong
+                  k = case_of(starts, i)
+                  if k not in bad_cases:
+                      bad_cases.add(k)
+                      e = starts[k + 1] if k + 1 < len(starts) else len(lines)
+                      f = Failure("diverge", sub[k], impl[starts[k]:min(e, len(impl))], ["(reference) line %d: %s" % (i - starts[k], exp)],
+                                  clause="independent reference (%s) disagrees with the implementation" % getattr(plugin, "REFERENCE_NAME", "python oracle"))
+                      fails.append(f)
+                      budget -= 1
+                  i = starts[k + 1] if k + 1 < len(starts) else n
+                  continue
+              if impl[i] != model[i]:
+                  k = case_of(starts, i)
+                  if k not in bad_cases:
+                      bad_cases.add(k)
+                      e = starts[k + 1] if k + 1 < len(starts) else len(lines)
+                      fails.append(Failure("diverge", sub[k], impl[starts[k]:min(e, len(impl))], model[starts[k]:e]))
+                      budget -= 1
+                  # skip to next case
+                  i = starts[k + 1] if k + 1 < len(starts) else n
+                  continue
+              i += 1
+        finally:
+            REF_LOCK.release()
         if crash is None and len(impl) != len(lines):
             crash = "protocol:impl-printed-%d-lines-for-%d-ops" % (len(impl), len(lines))
         if crash is None:
@@ -529,6 +539,23 @@ def check(plugin, pid, tier, seed):
     if getattr(plugin, "EXHAUSTIVE", None) and tier in plugin.EXHAUSTIVE:
         ev["coverage"]["exhaustive_part"] = plugin.EXHAUSTIVE[tier]
     os.makedirs(core.EVID, exist_ok=True)
+    # one evidence file per property: keep a measured summary of the latest run of the other tier next to this run
+    try:
+        with open(os.path.join(core.EVID, pid + ".json")) as fp:
+            old = json.load(fp)
+        oc = old.get("coverage", {})
+        if old.get("tier") != tier:
+            ev["coverage"]["latest_run_of_other_tier"] = {
+                "tier": old.get("tier"), "seed": old.get("seed"), "wall_s": old.get("wall_s"), "violations": old.get("violations"),
+                "finished_at": old.get("finished_at"), "tree_hash": oc.get("tree_hash"),
+                "obligations": oc.get("obligations"), "discharged": oc.get("discharged"), "evaluations": oc.get("evaluations"),
+                "distinct_nontrivial": oc.get("distinct_nontrivial"), "traces_validated_against_impl": oc.get("traces_validated_against_impl"),
+                "ops": oc.get("ops"), "leanchecker_rc": oc.get("leanchecker_rc"), "exhaustive_part": oc.get("exhaustive_part")}
+        elif "latest_run_of_other_tier" in oc:
+            ev["coverage"]["latest_run_of_other_tier"] = oc["latest_run_of_other_tier"]
+    except Exception:
+        pass
+    ev["finished_at"] = time.strftime("%Y-%m-%dT%H:%M:%SZ", time.gmtime())
     with open(os.path.join(core.EVID, pid + ".json"), "w") as fp:
         json.dump(ev, fp, indent=1)
     log("[%s] tier=%s seed=%d obligations=%d/%d K: %d cases (%d nontrivial, %d validated) violations=%d wall=%.1fs"
